@@ -132,9 +132,10 @@ def fmt_g(v):
     return "%g" % v
 
 
-def close_printed(expected, text, digits=6):
+def close_printed(expected, text, digits=6, abs_tol=0.0):
     """does the printed number equal the reference rounded to `digits` significant digits
-    (either neighbour in the last printed digit accepted)?"""
+    (either neighbour in the last printed digit accepted)?  abs_tol: absolute slack for scores that are small differences of
+    single-precision data (the program holds its arrays in float32)"""
     import math
     try:
         got = float(text)
@@ -146,7 +147,7 @@ def close_printed(expected, text, digits=6):
         return False
     if math.isinf(expected) or math.isinf(got):
         return expected == got
-    if expected == got or abs(expected - got) <= 1e-12:
+    if expected == got or abs(expected - got) <= max(1e-12, abs_tol):
         return True
     mag = max(abs(expected), abs(got))
     if mag == 0:
